@@ -214,123 +214,86 @@ def check(repo, res, tier):
 
 # --------------------------------------------------------------------------- rows
 def _check_rows(res, ifj, ios):
-    cfg, df = cfg_of(ifj), dataflow_of(ifj)
+    """integrateFuncJac interpreted with the stepper replaced by a recorder: the rows returned must be
+    ([x0] if includeOrigin) + [state after stepping to t_k for each k, in order], whatever container is used"""
+    from ..core.absint import Abs, Obj, Tok, AList, Raised
+    from ..core.symarr import SymArr, np_summaries
+    from ..core import algebra as A
     params = ifj.params
-    for need in ("t", "x0", "includeOrigin"):
+    for need in ("t", "x0", "includeOrigin", "full_output"):
         if need not in params:
             raise AnalysisError("integrateFuncJac lost its parameter %s" % need)
-    # the solution list = the local whose np.array(...) is returned (slot 0)
-    sol = None
-    for n in C.returns_of(ifj):
-        el = C.tuple_elts(n.ast.value)[0]
-        ex = df.expand(el, n)
-        if isinstance(ex, ast.Name):
-            d0 = df.single_def(n, ex.id)
-            if d0 is not None and d0.kind == "assign" and not d0.slot and d0.value is not None:
-                ex = d0.value      # solution = np.array(solution): look at the conversion itself
-        if isinstance(ex, ast.Call) and dotted(ex.func) in ("np.array", "numpy.array", "np.asarray", "np.vstack", "np.stack") and ex.args:
-            a = ex.args[0]
-            if isinstance(a, ast.Name):
-                sol = a.id if sol in (None, a.id) else "?"
-                res.holds("R-ROWS", ifj, "result-is-array@%d" % len([o for o in res.obs if o.rule == "R-ROWS"]),
-                          "returns np.array(%s)" % a.id, node=n.ast)
-                continue
-        res.violated("R-ROWS", ifj, "result-is-array", "returned solution `%s` is not np.array(<solution list>)" % norm(el), node=n.ast)
-    if sol in (None, "?"):
-        res.undecided("R-ROWS", ifj, "solution-list", "cannot identify the solution list")
-        return
-    # all mutations of the list
-    appends = [d for d in df.defs if d.name == sol and d.kind == "append"]
-    other = []
+    n_cases = 0
+    for tform, tval, times in (("list", [1.0, 2.0, 3.5], [1.0, 2.0, 3.5]), ("tuple", (1.0, 2.0, 3.5), [1.0, 2.0, 3.5]), ("scalar", 2.0, [2.0]),
+                               ("one-element", [4.0], [4.0])):
+        for inc in (False, True):
+            for full in (False, True):
+                for method in (None, "vode"):
+                    n_cases += 1
+                    x0 = SymArr.symbols("x0", (2,))
+                    rec = {"steps": [], "setup": []}
+
+                    def step(r, t, func, jac, args=(), full_output=False, _rec=rec):
+                        _rec["steps"].append(t)
+                        row = SymArr.symbols("y@%s" % t, (2,))
+                        return (row, True, Tok("e"), Tok("mx"), Tok("mn")) if full_output else row
+
+                    def setup(func, jac, x0_, t0_, args=(), method_=None, nsteps=10000, _rec=rec):
+                        _rec["setup"].append((x0_, t0_, method_))
+                        return Obj("integrator")
+                    summ = np_summaries()
+                    arr = summ["np.array"]
+
+                    def np_array(a, *aa, **kk):
+                        try:
+                            return arr(a)
+                        except A.Undecided:
+                            return list(a) if isinstance(a, (list, tuple)) else a
+                    summ.update({"_integrateOneStep": step, "_setupIntegrator": setup, "np.array": np_array,
+                                 "_determineIntegratorGivenEigenValue": lambda e: "lsoda", "np.linalg.eig": lambda m: (Tok("eig"), Tok("vec")),
+                                 "is_list_like": lambda v: isinstance(v, (list, tuple)) or getattr(v, "_abs_native", False),
+                                 "InputError": lambda *a: Tok("err")})
+                    types = {"Number": lambda v: isinstance(v, (int, float)) and not isinstance(v, bool)}
+                    env = {"func": ("py", lambda *a: Tok("f")), "jac": ("py", lambda *a: Tok("J"))}
+                    ab = Abs({}, types, summ, None)
+                    tag = "rows(t=%s,includeOrigin=%s,full_output=%s,method=%s)" % (tform, inc, full, method)
+                    try:
+                        kind, out = ab.run_function(ifj.node, dict(env, x0=x0, t0=0.0, t=tval, includeOrigin=inc, full_output=full, method=method))
+                    except A.Undecided as e:
+                        res.undecided("R-ROWS", ifj, tag, "outside the modelled subset: %s" % e)
+                        continue
+                    if kind != "return":
+                        res.violated("R-ROWS", ifj, tag, "integrateFuncJac raises %s" % (out,), node=ifj.node)
+                        continue
+                    sol = out[0] if (full and isinstance(out, tuple)) else out
+                    want_rows = ([x0] if inc else []) + [SymArr.symbols("y@%s" % t_, (2,)) for t_ in times]
+                    want = SymArr.of([r_.tolist() for r_ in want_rows])
+                    problems = []
+                    if rec["steps"] != times:
+                        problems.append("the integrator is stepped to %s, requested times are %s" % (rec["steps"], times))
+                    if not isinstance(sol, SymArr):
+                        problems.append("the solution returned is %r, not an array of rows" % (sol,))
+                    elif sol.shape != want.shape or not sol.same(want):
+                        problems.append("returned rows %s, expected %s" % (sol.tolist(), "x0 followed by " if inc else "" + "the state after each requested time in order"))
+                    if full and not (isinstance(out, tuple) and len(out) == 2 and isinstance(out[1], dict)):
+                        problems.append("full_output does not return (solution, info dict)")
+                    if not rec["setup"] or not (isinstance(rec["setup"][0][0], SymArr) and rec["setup"][0][0].same(x0) and rec["setup"][0][1] == 0.0):
+                        problems.append("the integrator is not started from (x0, t0)")
+                    res.check(not problems, "R-ROWS", ifj, tag, "rows = %sstate at each requested time, in order" % ("x0, " if inc else ""),
+                              "; ".join(problems), node=ifj.node)
+    res.floor("row-assembly cases interpreted", n_cases, 32)
+    # R-DTYPE: a pre-allocated solution container must not take its dtype from the initial state
+    cfg, df = cfg_of(ifj), dataflow_of(ifj)
     for n, c, callee in C.calls(ifj):
-        if isinstance(c.func, ast.Attribute) and isinstance(c.func.value, ast.Name) and c.func.value.id == sol \
-                and c.func.attr not in ("append",):
-            other.append(c)
-    for d in df.defs:
-        if d.name == sol and d.kind in ("mutate", "aug"):
-            other.append(d.stmt)
-    res.check(not other, "R-ROWS", ifj, "only-append", "the solution list is only ever appended to",
-              "the solution list is modified by something other than append (%s): row order/number no longer follows t"
-              % [norm(o)[:40] for o in other], node=other[0] if other else None)
-    # initialisation: empty list
-    inits = [d for d in df.defs if d.name == sol and d.kind == "assign" and not _is_array_call(d.value)]
-    ok_init = len(inits) == 1 and ((isinstance(inits[0].value, ast.Call) and dotted(inits[0].value.func) == "list" and not inits[0].value.args)
-                                   or (isinstance(inits[0].value, ast.List) and not inits[0].value.elts))
-    res.check(ok_init, "R-ROWS", ifj, "starts-empty", "solution list starts empty",
-              "solution list does not start empty: %s" % [norm(d.value) for d in inits], node=inits[0].stmt if inits else None)
-    # the loop over t
-    loops = [n for n in cfg.nodes if n.kind == "iter"]
-    tloop = None
-    for ln in loops:
-        it = ln.ast.iter
-        rts = df.roots(it, ln)
-        if ("param", "t") in rts and isinstance(it, ast.Name):
-            tloop = ln
-    if tloop is None:
-        res.violated("R-ROWS", ifj, "loop-over-t", "no `for <x> in t` loop over the requested times (iteration order must be that of t)")
-        return
-    res.holds("R-ROWS", ifj, "loop-over-t", "iterates over t itself, in order", node=tloop.ast)
-    # rebinding of t before the loop must keep its elements in order: t = [t] only
-    for d in df.strong_defs(tloop, "t"):
-        if d.kind == "assign":
-            ok = isinstance(d.value, ast.List) and len(d.value.elts) == 1 and isinstance(d.value.elts[0], ast.Name) and d.value.elts[0].id == "t"
-            res.check(ok, "R-ROWS", ifj, "t-rebinding@%s" % norm(d.stmt)[:30], "scalar t wrapped into a one-element list",
-                      "t is rebound to %s before the loop: rows no longer correspond to the requested times" % norm(d.value), node=d.stmt)
-    loopvar = tloop.ast.target.id if isinstance(tloop.ast.target, ast.Name) else None
-    body_edge = cfg.edge_node(tloop, "body")
-    in_loop = [d for d in appends if cfg.reaches(body_edge, d.node, avoid=[tloop]) or d.node.id == body_edge.id]
-    pre = [d for d in appends if d not in in_loop]
-    # (a) at least one append on every path of an iteration
-    res.check(bool(in_loop) and not cfg.reaches(body_edge, tloop, avoid=[d.node for d in in_loop]),
-              "R-ROWS", ifj, "one-row-per-time(at-least)", "every path through the loop body appends a row",
-              "some path through the loop body appends no row: the output has fewer rows than requested times", node=tloop.ast)
-    # (b) at most one
-    twice = False
-    for d in in_loop:
-        for d2 in in_loop:
-            if cfg.reaches(d.node, d2.node, avoid=[tloop]):
-                twice = True
-    res.check(not twice, "R-ROWS", ifj, "one-row-per-time(at-most)", "no path appends two rows in one iteration",
-              "a path through the loop body appends two rows for one requested time", node=tloop.ast)
-    # (c) appended value = state returned by stepping r to the loop variable
-    for d in in_loop:
-        v = d.value
-        ok, why = False, "appended value %s does not come from _integrateOneStep" % norm(v)
-        srcs = []
-        if isinstance(v, ast.Name):
-            for dd in df.strong_defs(d.node, v.id):
-                srcs.append(dd)
-        for dd in srcs:
-            if dd.kind == "assign" and isinstance(dd.value, ast.Call) and (dotted(dd.value.func) or "").endswith("_integrateOneStep"):
-                b = C.bind_args(dd.value, ios.params)
-                slot_ok = dd.slot in ((), (0,))
-                t_ok = isinstance(b.get("t"), ast.Name) and b["t"].id == loopvar
-                ok = slot_ok and t_ok
-                why = "row = state after stepping to the loop's time point" if ok else \
-                    ("row is slot %s of the step result" % (dd.slot,) if not slot_ok else
-                     "the step is taken to `%s`, not to the loop's time point `%s`" % (norm(b.get("t")), loopvar))
-                if not ok:
-                    break
-            else:
-                ok, why = False, "appended value %s does not come from _integrateOneStep" % norm(dd.value)
-                break
-        res.check(ok and bool(srcs), "R-ROWS", ifj, "row-source@%s" % norm(d.stmt)[:40], why, why, node=d.stmt)
-    # (d) origin
-    pp = [d for d in pre]
-    ok_o, why_o = False, "x0 is never prepended"
-    if len(pp) == 1:
-        d = pp[0]
-        gs = C.if_guards(cfg, d.node)
-        g_ok = len(gs) == 1 and gs[0][1] is True and isinstance(gs[0][0].ast.test, ast.Name) and gs[0][0].ast.test.id == "includeOrigin"
-        v_ok = isinstance(d.value, ast.Name) and d.value.id == "x0" and ("param", "x0") in df.roots(d.value, d.node)
-        before = cfg.reaches(d.node, tloop) and not cfg.reaches(tloop, d.node)
-        ok_o = g_ok and v_ok and before
-        why_o = "x0 is the first row iff includeOrigin" if ok_o else \
-            "origin row: guard ok=%s, value is x0=%s, precedes the loop=%s" % (g_ok, v_ok, before)
-    elif len(pp) > 1:
-        why_o = "more than one row is appended before the loop"
-    res.check(ok_o, "R-ROWS", ifj, "origin-first", why_o, why_o, node=pp[0].stmt if pp else None)
-    # _integrateOneStep: integrate(t) precedes every read of r.y
+        last = callee.split(".")[-1]
+        uses_x0 = any(isinstance(x, ast.Name) and x.id == "x0" for a in list(c.args) + [k.value for k in c.keywords] for x in ast.walk(a))
+        dt = kwarg(c, "dtype")
+        if last in ("empty_like", "zeros_like", "full_like", "ones_like") and c.args and norm(c.args[0]) == "x0" and (dt is None or "x0" in norm(dt)):
+            res.violated("R-ROWS", ifj, "container-dtype@%s" % norm(c)[:40],
+                         "%s allocates the solution with the dtype of the initial state: with an integer x0 every row is truncated to whole numbers" % norm(c), node=c)
+        elif last in ("empty", "zeros", "array", "full") and dt is not None and "x0" in norm(dt):
+            res.violated("R-ROWS", ifj, "container-dtype@%s" % norm(c)[:40], "%s takes its dtype from the initial state" % norm(c), node=c)
+    # _integrateOneStep: integrate(t) precedes every read of r.y; only successful steps return a state
     cfg2, df2 = cfg_of(ios), dataflow_of(ios)
     ip = ios.params
     r_p, t_p = ip[0], ip[1]
@@ -340,14 +303,20 @@ def _check_rows(res, ifj, ios):
     res.check(bool(integ_nodes) and all(any(cfg2.dominates(i, r) for i in integ_nodes) for r in rets),
               "R-ROWS", ios, "step-to-t", "r.integrate(t) with the requested time precedes every return",
               "_integrateOneStep does not call %s.integrate(%s) before returning the state" % (r_p, t_p), node=ios.node)
-    succ = [n for n in cfg2.nodes if n.kind == "test" and "successful" in norm(n.ast.test)]
-    ok_s = bool(succ)
+    ok_s = True
     for r in rets:
         gs = C.if_guards(cfg2, r)
         if not any("successful" in norm(t.ast.test) and o is True for t, o in gs):
             ok_s = False
-    res.check(ok_s, "R-ROWS", ios, "only-successful-steps", "a state is returned only when the integrator reports success",
+    res.check(ok_s and bool(rets), "R-ROWS", ios, "only-successful-steps", "a state is returned only when the integrator reports success",
               "a state is returned although the integrator did not report success", node=ios.node)
+    # the state returned is the integrator's state (slot 0)
+    for r in rets:
+        el = C.tuple_elts(r.ast.value)[0]
+        src = df2.expand(el, r)
+        ok = any(isinstance(x, ast.Attribute) and x.attr == "y" and isinstance(x.value, ast.Name) and x.value.id == r_p for x in ast.walk(src))
+        res.check(ok, "R-ROWS", ios, "returns-integrator-state@%s" % norm(el)[:30], "the first value returned is the integrator's state",
+                  "`%s` is returned as the state, which is not %s.y" % (norm(el), r_p), node=r.ast)
 
 
 def _is_array_call(v):
